@@ -902,6 +902,9 @@ class DiskRefsContainer(RefsContainer):
             self.worktree_path = os.fsencode(os.fspath(worktree_path))
         self._packed_refs: dict[Ref, ObjectID] | None = None
         self._peeled_refs: dict[Ref, ObjectID] | None = None
+        # Whether the packed-refs file that was read says which of its refs
+        # peel to what ("# pack-refs with: peeled")
+        self._packed_refs_have_peeled = False
         self._packed_refs_key: _PackedRefsKey | None = None
 
     def __repr__(self) -> str:
@@ -1028,6 +1031,7 @@ class DiskRefsContainer(RefsContainer):
             # None if and only if _packed_refs is also None.
             self._packed_refs = {}
             self._peeled_refs = {}
+            self._packed_refs_have_peeled = False
             self._packed_refs_key = None
             path = os.path.join(self.path, b"packed-refs")
             try:
@@ -1035,8 +1039,9 @@ class DiskRefsContainer(RefsContainer):
             except FileNotFoundError:
                 return {}
             with f:
-                first_line = next(iter(f)).rstrip()
+                first_line = next(iter(f), b"").rstrip()
                 if first_line.startswith(b"# pack-refs") and b" peeled" in first_line:
+                    self._packed_refs_have_peeled = True
                     for sha, name, peeled in read_packed_refs_with_peeled(f):
                         self._packed_refs[name] = sha
                         if peeled:
@@ -1083,6 +1088,8 @@ class DiskRefsContainer(RefsContainer):
                 packed_refs = self.get_packed_refs().copy()
 
                 to_prune: dict[Ref, ObjectID | None] = {}
+                peeled_refs = dict(self._peeled_refs or {})
+                unknown_tag = False
                 for ref, target in new_refs.items():
                     # sanity check
                     if ref == HEADREF:
@@ -1102,11 +1109,28 @@ class DiskRefsContainer(RefsContainer):
                         to_prune[ref] = None
 
                     if target is not None:
+                        if packed_refs.get(ref) not in (None, target):
+                            # The peeled value on record belongs to the
+                            # value the ref is moving away from.
+                            peeled_refs.pop(ref, None)
+                        if ref.startswith(LOCAL_TAG_PREFIX) and ref not in peeled_refs:
+                            unknown_tag = True
                         packed_refs[ref] = target
                     else:
                         packed_refs.pop(ref, None)
 
-                write_packed_refs(f, packed_refs, self._peeled_refs)
+                # Under the "peeled" header a tag without a peeled line is
+                # taken to point at a non-tag object.  What a tag packed here
+                # peels to is not known, so unless every one of them has a
+                # line, write a file that claims nothing.
+                write_packed_refs(
+                    f,
+                    packed_refs,
+                    peeled_refs
+                    if (peeled_refs or self._packed_refs_have_peeled)
+                    and not unknown_tag
+                    else None,
+                )
 
             # Only now that the new packed-refs file is in place may the
             # loose refs it supersedes go away; removing them earlier loses
@@ -1220,6 +1244,14 @@ class DiskRefsContainer(RefsContainer):
         ):
             # No cache: no peeled refs were read, or this ref is loose
             return None
+        if not self._packed_refs_have_peeled and name not in self._peeled_refs:
+            # The file makes no statement about peeled values
+            return None
+        loose = self.read_loose_ref(name)
+        if loose is not None and loose != self._packed_refs[name]:
+            # A loose ref shadows the packed entry: what packed-refs records
+            # describes an older value of the ref.
+            return None
         if name in self._peeled_refs:
             return self._peeled_refs[name]
         else:
@@ -1293,6 +1325,9 @@ class DiskRefsContainer(RefsContainer):
             del packed_refs[name]
             if peeled_refs is not None:
                 peeled_refs.pop(name, None)
+            if not peeled_refs and not self._packed_refs_have_peeled:
+                # Do not add a "peeled" header to a file that had none
+                peeled_refs = None
             write_packed_refs(f, packed_refs, peeled_refs)
             f.close()
         finally:
